@@ -423,7 +423,9 @@ func (h *histogram) snapshotValues() map[float64]int64 {
 
 	vals := make(map[float64]int64, len(h.buckets))
 	for i := range h.buckets {
-		vals[h.buckets[i].valueUpperBound] = h.samples[i].counter.snapshot()
+		// buckets sharing an upper bound (duplicated in the specification)
+		// share a map entry: add up rather than overwrite.
+		vals[h.buckets[i].valueUpperBound] += h.samples[i].counter.snapshot()
 	}
 
 	return vals
@@ -436,7 +438,7 @@ func (h *histogram) snapshotDurations() map[time.Duration]int64 {
 
 	durations := make(map[time.Duration]int64, len(h.buckets))
 	for i := range h.buckets {
-		durations[h.buckets[i].durationUpperBound] = h.samples[i].counter.snapshot()
+		durations[h.buckets[i].durationUpperBound] += h.samples[i].counter.snapshot()
 	}
 
 	return durations
